@@ -8,6 +8,15 @@ Local Open Scope R_scope.
 
 Record special := { sp_erfc : R -> R; sp_atan2 : R -> R -> R }.
 
+(** what the theorems assume about the functions the standard library does not provide; these are
+    true facts of erfc and atan2 and appear only as premises *)
+Record special_laws (sp : special) : Prop := {
+  atan2_polar : forall rho th, 0 < rho -> - PI < th <= PI -> sp_atan2 sp (rho * sin th) (rho * cos th) = th;
+  erfc_0 : sp_erfc sp 0 = 1;
+  erfc_range : forall x, 0 <= x -> 0 <= sp_erfc sp x <= 1;
+  erfc_decreasing : forall x y, 0 <= x <= y -> sp_erfc sp y <= sp_erfc sp x
+}.
+
 Definition Rltb (x y : R) : bool := if Rlt_dec x y then true else false.
 Definition Rleb (x y : R) : bool := if Rle_dec x y then true else false.
 Definition Reqb (x y : R) : bool := if Req_EM_T x y then true else false.
